@@ -92,7 +92,9 @@ def intify(spec, rng):
     for k, v in list(p.items()):
         if isinstance(v, dict) and v.get('t') == 'pix' and not isinstance(v['x'], dict):
             p[k] = S.pix(int(round(v['x'])), int(round(v['y'])))
-        elif isinstance(v, float) and k != 'nvertices':
+        elif isinstance(v, dict) and 'np' in v:         # a typed scalar from the shared generator
+            p[k] = max(1, int(round(v['v'])))
+        elif isinstance(v, (int, float)) and not isinstance(v, bool) and k != 'nvertices':
             p[k] = max(1, int(round(v)))
     if 'inner_radius' in p and p['inner_radius'] >= p['outer_radius']:
         p['outer_radius'] = p['inner_radius'] + 1
